@@ -157,6 +157,23 @@ fn gen_c19_facts(rng: &mut Rng, flags: bool) -> FactSet {
         }
         lower.push(t);
     }
+    // a term directly below MANY top-level branches (more parents than those parents have ancestors)
+    if rng.chance(1, 6) {
+        let extra = rng.urange(6, 12);
+        let mut many: Vec<u32> = Vec::new();
+        let under_root = rng.chance(1, 2);
+        for _ in 0..extra {
+            let b = mk(&mut f, rng, None, None);
+            f.edges.push((b, if under_root { 1 } else { 118 }));
+            many.push(b);
+        }
+        let t = mk(&mut f, rng, None, None);
+        for b in &many {
+            f.edges.push((t, *b));
+        }
+        let t2 = mk(&mut f, rng, None, None);
+        f.edges.push((t2, t));
+    }
     // HP:118 itself below a top-level branch (it stays a child of HP:1, hence no modifier root, but it
     // descends from one)
     if pheno_under_root && !mods.is_empty() && rng.chance(1, 8) {
@@ -409,6 +426,13 @@ impl StateMonitor {
                 }
             }
             return;
+        }
+        // the direct parents of a retained term are its source parents that were retained as well
+        for (id, t) in &obs.terms {
+            let exp: Vec<u32> = m.parents.get(id).map(|ps| ps.iter().copied().filter(|p| obs.terms.contains_key(p)).collect()).unwrap_or_default();
+            out.check(t.parents == exp, "C01", "parents/sub_ontology", || {
+                format!("term {id} in sub_ontology({root}, {leaves:?}): parents {:?}, source parents among the retained terms {exp:?}", t.parents)
+            });
         }
         self.self_consistency_c01(&obs, out, "/sub_ontology");
         // child_of / parent_of against the closure of the result's own direct parents
@@ -969,6 +993,39 @@ impl Monitor for StateMonitor {
                 3..=12 if label.starts_with("rndc19") && sc.path == PathKind::BuilderDefaults => {
                     out.bucket("obtained/minimal_then_set_default_calls");
                     let cats_first = rng.chance(1, 2);
+                    // a sixth of these cases resets ONLY the categories (after customising them): the modifier
+                    // list of the minimal build stays empty, the categories are the default ones
+                    let only_categories = rng.chance(1, 6);
+                    if only_categories {
+                        match drive::via_builder(&sc.view, None, false) {
+                            Ok(mut o) => {
+                                let all: Vec<u32> = sc.view.terms.iter().map(|t| t.id).collect();
+                                o.categories_mut().insert(*rng.pick(&all));
+                                if let Err(e) = o.set_default_categories() {
+                                    out.violate("C19", "set_default_calls_failed", format!("set_default_categories failed: {e}"));
+                                    return out;
+                                }
+                                out.bucket("obtained/only_categories_reset");
+                                let mut model = Model::new(&sc.view, true);
+                                model.modifier_roots.clear();
+                                let expected = model.expected_obs(&sc.view, &sc.view.version_string());
+                                let ids: Vec<u32> = sc.view.terms.iter().map(|t| t.id).collect();
+                                let observed = crate::observe::walk(&o, &ids, &mut out.events);
+                                let mut diffs = Vec::new();
+                                crate::observe::diff(&expected, &observed, &mut diffs, &mut out.comparisons);
+                                for d in &diffs {
+                                    if owns(self.prop, &d.site) {
+                                        out.violate(self.prop, &format!("{}/only_categories_reset", d.site), d.detail.clone());
+                                    }
+                                }
+                                return out;
+                            }
+                            Err(e) => {
+                                out.violate("C19", "construct_err/builder_minimal", format!("valid facts rejected: {e}"));
+                                return out;
+                            }
+                        }
+                    }
                     match drive::via_builder(&sc.view, None, false) {
                         Ok(mut o) => {
                             // half of the time the lists were customised before (a user resetting them to the
